@@ -778,7 +778,11 @@ func (w *world) addEvents() {
 		a := a
 		x.AddEvent(&mc.Event{
 			Name:    "cancel:" + a.name,
-			Enabled: locked(func() bool { return a.cancelsLeft > 0 && a.deliverable() }),
+			// Voluntary cancellations belong to the run proper (like the
+			// ticks): once the clock has reached MaxTicks only teardown
+			// cancels, so that a call that is stuck for good is judged by
+			// onForcedCancel instead of being "rescued" by its own budget.
+			Enabled: locked(func() bool { return a.cancelsLeft > 0 && w.clock.tick() < w.cfg.MaxTicks && a.deliverable() }),
 			Fire: func() {
 				w.mu.Lock()
 				a.cancelsLeft--
